@@ -420,7 +420,17 @@ def _is_counter_term(t, tw, F, k):
         m = F.param_attr().get(k.key, {}).get(name, set())
         return bool(m & (COUNTER_ATTRS | {"other." + a for a in COUNTER_ATTRS}))
     if t[0] == "call":
-        return t[1].startswith("_query") or t[1] in ("_log_counter", "_max_count")
+        # results of the kernels that read counters: the count-min query kernels, the log step, the heavy-hitter reader
+        names = getattr(F, "_counter_call_names", None)
+        if names is None:
+            names = {q.name for q in query_kernels(F)} | {"_log_counter"}
+            try:
+                from .rules_hh import hh_kernels
+                names.add(hh_kernels(F)["max"].name)
+            except Exception:
+                names.add("_max_count")
+            F._counter_call_names = names
+        return t[1] in names
     return False
 
 
@@ -975,7 +985,9 @@ def rule_nadd_once(ctx, kernels):
                 if e.aug and isinstance(e.aug[0], ast.Add) and isinstance(e.aug[2], Num):
                     amt = e.aug[2].lin
                     q = [c for c in on_path(w.events, e) if c.kind == "call" and c.name in qk]
-                    if k.name.endswith("linear"):
+                    calls_k = list(F.calls_from(k))
+                    if any(c.callee.name in qk for c in calls_k) and not any(c.callee.name == "_log_counter" for c in calls_k):
+                        # linear count-min add: conservative update from the queried minimum, no log step
                         # amount == new_count - min_count: compare with the table store value on later paths
                         tstores = [s for s in w.events if s.kind == "store" and s.arr.name in tabs and isinstance(s.value, Num)
                                    and len(s.path) >= len(e.path) and s.path[:len(e.path)] == e.path]     # stores of this path's continuation
